@@ -2,7 +2,8 @@
 from props import common
 
 THEOREMS = ["C14_holds", "C14_slash", "C14_stake_frame", "C14_voter", "C14_gov_frame", "C14_jail", "C14_marks_increasing", "C14_dup_hash_refuted",
-            "C14_run_slash_exact", "C14_run_slash_once", "C14_run_others_untouched", "C14_run_jail_iff", "C14_run_voters", "C14_run_voter_once", "C14_jailed_same_block_set_refuted"]
+            "C14_run_slash_exact", "C14_run_slash_once", "C14_run_others_untouched", "C14_run_jail_iff", "C14_run_voters", "C14_run_voter_once", "C14_jailed_same_block_set_refuted",
+            "C14_marks_window_agree", "C14_jail_iff_headers", "C14_window_growth_refuted"]
 
 
 def run(ctx):
